@@ -61,8 +61,14 @@ def check_keywords(ctx, rep, rule=RULE + '.a'):
         parse = ctx.prog.func('{}.parse_{}'.format(mod, kind))
         # keyword set handed to AutomatonParser by parse_<kind>
         kws = None
-        for c in ctx.prog.calls_in(parse):
-            if ctx.callee_name(parse, c) == 'AutomatonParser':
+        ctor_sites = [(parse, c) for c in ctx.prog.calls_in(parse)]
+        # the parser object may be created by a helper the entry point delegates to (parse_automaton)
+        for c0 in ctx.prog.calls_in(parse):
+            r0 = ctx.resolve_call(parse, c0)
+            if r0 is not None and r0.kind == 'func' and r0.target.cls is None and r0.target.name.startswith('parse_'):
+                ctor_sites += [(r0.target, c1) for c1 in ctx.prog.calls_in(r0.target)]
+        for (owner, c) in ctor_sites:
+            if ctx.callee_name(owner, c) == 'AutomatonParser':
                 for k in c.keywords:
                     if k.arg == 'keywords' and isinstance(k.value, ast.Call) and isinstance(k.value.func, ast.Name):
                         kws = keyword_set(ctx, k.value.func.id)
@@ -107,7 +113,7 @@ def check_keywords(ctx, rep, rule=RULE + '.a'):
                         d = r.target.defaults.get('key') if r is not None and r.kind == 'func' else None
                         if isinstance(d, ast.Constant):
                             consumed.add(d.value)
-            site = [c for c in ctx.prog.calls_in(parse) if ctx.callee_name(parse, c) == 'AutomatonParser'][0]
+            site = [c for (owner, c) in ctor_sites if ctx.callee_name(owner, c) == 'AutomatonParser'][0]
             for kw in sorted(kws):
                 n += 1
                 if kw in consumed:
